@@ -13,8 +13,9 @@ import os
 import warnings
 import numpy as np
 
-THEOREMS = ["Pq.C10.perm_grad", "Pq.C10.disp_grad_r", "Pq.C10.disp_grad_phi", "Pq.C10.sqrtm_vjp"]
-FILES = ["PqVerif/Lemmas/GradLaws.lean", "PqVerif/Lemmas/ShimLaws.lean", "PqVerif/Props/C10.lean"]
+THEOREMS = ["Pq.C10.perm_grad", "Pq.C10.disp_grad_r", "Pq.C10.disp_grad_phi", "Pq.C10.disp_loop_closed_form",
+            "Pq.C10.sq_loop_closed_form", "Pq.C10.sq_grad_r", "Pq.C10.sq_grad_phi", "Pq.C10.sqrtm_vjp"]
+FILES = ["PqVerif/Lemmas/GradLaws.lean", "PqVerif/Lemmas/ShimLaws.lean", "PqVerif/Lemmas/DispRec.lean", "PqVerif/Lemmas/SqueezeRec.lean", "PqVerif/Props/C10.lean"]
 
 os.environ.setdefault("TF_CPP_MIN_LOG_LEVEL", "3")
 
@@ -343,6 +344,49 @@ def displacement_rule(ctx, n):
     return mism
 
 
+def sq_entry(m, n, r, phi):
+    """closed form `Pq.SqueezeRec.sqEntry`"""
+    if m < 0 or n < 0 or (m - n) % 2:
+        return 0j
+    t, s = math.tanh(r), 1 / math.cosh(r)
+    tot = 0j
+    for k in range(min(m, n) + 1):
+        if (m - k) % 2:
+            continue
+        a, b = (m - k) // 2, (n - k) // 2
+        tot += (-np.exp(1j * phi) * t / 2) ** a * (np.exp(-1j * phi) * t / 2) ** b * s ** k / (math.factorial(k) * math.factorial(a) * math.factorial(b))
+    return math.sqrt(s) * math.sqrt(math.factorial(m) * math.factorial(n)) * tot
+
+
+def squeezing_rule(ctx, n):
+    """the code's squeezing matrix == the closed form of the theorem; the code's gradient function == the proved rules"""
+    import piquasso as pq
+    import tensorflow as tf
+    from piquasso._math import fock, gradients
+    rng = np.random.default_rng(ctx.seed + 102)
+    mism = []
+    npc, tfc = pq.NumpyConnector(), pq.TensorflowConnector()
+    for it in range(n):
+        r, phi, c = float(rng.uniform(-1.2, 1.2)), float(rng.uniform(-3.2, 3.2)), int(rng.integers(2, 10))
+        S = np.asarray(fock.get_single_mode_squeezing_operator(r=r, phi=phi, cutoff=c, complex_dtype=np.complex128, connector=npc))
+        M = np.array([[sq_entry(m, k, r, phi) for k in range(c)] for m in range(c)])
+        ctx.count(("squeeze", it), nontrivial=c >= 3)
+        if S.shape != M.shape or np.abs(S - M).max() > 1e-10 * (1 + np.abs(M).max()):
+            mism.append((f"squeezing r={r} phi={phi} cutoff={c}", f"squeezing matrix differs from the closed form by {np.abs(S - M).max() if S.shape == M.shape else S.shape}")); continue
+        t, s, e = math.tanh(r), 1 / math.cosh(r), np.exp(1j * phi)
+        E = lambda m, k: sq_entry(m, k, r, phi)
+        rule_r = np.array([[-(t / 2) * E(m, k) - s * t * math.sqrt(m * k) * E(m - 1, k - 1)
+                            - (s * s / 2) * (e * math.sqrt(m * max(m - 1, 0)) * E(m - 2, k) - np.conj(e) * math.sqrt(k * max(k - 1, 0)) * E(m, k - 2)) for k in range(c)] for m in range(c)])
+        rule_p = np.array([[-0.5j * t * (e * math.sqrt(m * max(m - 1, 0)) * E(m - 2, k) + np.conj(e) * math.sqrt(k * max(k - 1, 0)) * E(m, k - 2)) for k in range(c)] for m in range(c)])
+        up = rng.normal(size=(c, c)) + 1j * rng.normal(size=(c, c))
+        gfun = gradients.create_single_mode_squeezing_gradient(r, phi, c, S, tfc)
+        gr, gp = gfun(tf.constant(up))
+        er, ep = float(np.real(np.sum(up * np.conj(rule_r)))), float(np.real(np.sum(up * np.conj(rule_p))))
+        if abs(float(gr) - er) > 1e-9 * (1 + abs(er)) or abs(float(gp) - ep) > 1e-9 * (1 + abs(ep)):
+            mism.append((f"squeezing gradient r={r} phi={phi} cutoff={c}", f"gradient function returns ({float(gr):.9g}, {float(gp):.9g}), the proved rules give ({er:.9g}, {ep:.9g})"))
+    return mism
+
+
 def perm_rule(A, rows, cols):
     from pqv.props.c04 import perm_def
     n, m = A.shape
@@ -457,7 +501,7 @@ def run(ctx):
             ctx.fail("repro:" + os.path.basename(f), "pinned regression fails: " + (p.stdout + p.stderr)[-400:], {"script": f})
     with warnings.catch_warnings():
         warnings.simplefilter("ignore")
-        mism = displacement_rule(ctx, 20 if quick else 300)
+        mism = displacement_rule(ctx, 20 if quick else 300) + squeezing_rule(ctx, 20 if quick else 300)
         fails = native_grad_perm(ctx, 40 if quick else 400, False)
         if not quick:
             fails += native_grad_perm(ctx, 200, True)
@@ -474,4 +518,4 @@ def run(ctx):
     ctx.notes["correspondence_mismatches"] = len(mism)
     if mism:
         ctx.notes["first_mismatches"] = [dict(op=m[0][:200], what=m[1][:300]) for m in mism[:4]]
-        ctx.broken.append("correspondence:dispEntry / displacement rule vs _math/fock.py, _math/gradients.py")
+        ctx.broken.append("correspondence:dispEntry, sqEntry / displacement and squeezing rules vs _math/fock.py, _math/gradients.py")
